@@ -177,6 +177,23 @@ def build(rng, base=None):
                 if oxt is not None:
                     late_oxt = (i_, oxt)
                     desc["events"].append("terminal-oxygen-only-in-later-models")
+        # a metal site that holds another ion in each model (one chain and residue number, different residue names)
+        ion_site = None
+        if rng.random() < 0.15:
+            from . import fragments
+            names_ = rng.sample(("ZN", "MG", "CA", "MN", "CU"), min(k, 3))
+            site = {}
+            for nm_ in names_:
+                frag_, _e, _d = fragments.place_near(base, "ion:" + nm_, rng, dist_A=3.0, chain="M", resnum=950, min_clear_A=2.4)
+                if frag_:
+                    site[nm_] = frag_
+            if len(site) >= 2:
+                first_ = site[sorted(site)[0]][0]
+                for nm_, frag_ in site.items():
+                    for r_ in frag_:
+                        r_.x, r_.y, r_.z = first_.x, first_.y, first_.z
+                ion_site = [site[nm_] for nm_ in sorted(site)]
+                desc["events"].append("another-ion-on-one-site-in-each-model")
         for m in range(1, k + 1):
             out.append(pdbio.raw("MODEL     %4d" % m))
             kill_res, mutate, kill_atoms = set(), set(), 0.0
@@ -215,6 +232,8 @@ def build(rng, base=None):
                     if m > 1 and a.aname() not in ("N", "CA", "C", "O"):
                         a = jitter(a, rng)
                     out.append(a)
+            if ion_site is not None:
+                out.extend(r_.copy() for r_ in ion_site[(m - 1) % len(ion_site)])
             out.append(pdbio.raw("ENDMDL"))
         return out, desc
     # alternate locations
